@@ -154,9 +154,17 @@ def covered_by_harness(site: str, callers: Dict[str, set], seen: Tuple[str, ...]
 N = 0
 
 
+_BASES: Dict[Tuple, Any] = {}
+
+
 def mkbase(tag: str, symbolic_positions: Tuple[int, ...]) -> Any:
-    ex = [SInt(z3.Int(f"{tag}_d{j}")) if j in symbolic_positions else 0 for j in range(N)]
-    return im.shadow_base_unit(ex, tag)
+    # one object per (tag, positions) for the whole run: the library orders factor keys by id(), so
+    # fresh objects on every path would make the order of its comparisons differ from path to path
+    k = (tag, tuple(symbolic_positions), N)
+    if k not in _BASES:
+        ex = [SInt(z3.Int(f"{tag}_d{j}")) if j in symbolic_positions else 0 for j in range(N)]
+        _BASES[k] = im.shadow_base_unit(ex, tag)
+    return _BASES[k]
 
 
 def operand(tag: str, bases: List[Any], pbase: int) -> Any:
